@@ -97,9 +97,9 @@ TECH.update({
 })
 
 
-LEVEL_TEXT['C10'] = 'Kernel only. Unbounded deductive proof (Verus) that errexit applies iff the option is on and no frame of the runtime stack, at any depth, is a Condition frame, that apply_errexit exits exactly on a failing status there, and that apply_result moves the exit status of a divert into $?; bounded Kani sibling on real Env values (stacks of <= 3 frames). Where Condition frames are pushed and how each kind of shell error ends a command is async interpreter code and is not decided.'
-NOTE['C10'] = 'Kernel only (the dynamic context stack decision). Trusted: Verus/Z3, Kani/CBMC; Env reduced to three fields in the Verus unit; OptionSet::get and slice::contains assumed; RandomState::new stubbed in Kani. Not covered: pushing of Condition frames, callers of apply_errexit, the shell-error consequence table.'
-TECH['C10'] = 'contract-based deductive verification (Verus, Z3) of Env::errexit_is_applicable / apply_errexit / apply_result + bounded Kani sibling on the real crate'
+LEVEL_TEXT['C10'] = 'Kernel only. Unbounded deductive proof (Verus) that errexit applies iff the option is on and no frame of the runtime stack, at any depth, is a Condition frame, that apply_errexit exits exactly on a failing status there, and that apply_result moves the exit status of a divert into $?; bounded Kani sibling on real Env values (stacks of <= 3 frames). The three places that push Condition frames (conditions of if/while/until, negated pipelines, every pipeline of an and-or list but the last) are proved to run their commands with the frame on top, against an opaque model of command execution and an assumed RAII contract of the frame guard. How each kind of shell error ends a command is async interpreter code and is not decided.'
+NOTE['C10'] = 'Kernel only (the dynamic context stack decision). Trusted: Verus/Z3, Kani/CBMC; Env reduced to three fields in the Verus unit; OptionSet::get and slice::contains assumed; RandomState::new stubbed in Kani. The RAII composition of the frame guard is assumed (destructors are not modelled). Not covered: callers of apply_errexit, the shell-error consequence table.'
+TECH['C10'] = 'contract-based deductive verification (Verus, Z3) of Env::errexit_is_applicable / apply_errexit / apply_result and of the three sites that push Frame::Condition (evaluate_condition, negated Pipeline::execute, AndOrList::execute) + bounded Kani sibling on the real crate'
 
 LEVEL_TEXT['C09'] = 'Kernel only. Unbounded deductive proof (Verus) on the real perform / RedirGuard code, against an assumed model of the descriptor table: a redirection saves the target in a close-on-exec descriptor >= 10, changes the target only, refuses targets the shell reserves, and leaves the table unchanged on every failure; the guard restores exactly the initial table (undo_redirs, Drop) for any number of redirections, or closes every backing copy (preserve_redirs). Each operator opens its file with the access mode and flags of XCU 2.7, noclobber never truncates or hands out an existing regular file, <& / >& only name suitable open descriptors, and every opener leaves nothing open on failure. The expansion of operands and the interpreter\'s use of the guard are assumed or not decided; level other because the claim is a kernel over a model of the OS side.'
 NOTE['C09'] = 'Kernel only. Trusted: Verus/Z3; the descriptor-table model of Close/Dup/Fcntl; assumed contracts for expansion and for writing the here-document body; await points dropped; loops over drain() checked in an equivalent form. Not covered: here-document content, callers of RedirGuard, move_fd_internal, VirtualSystem.'
